@@ -124,7 +124,7 @@ theorem hashAgg_rechunk (gc : List Nat) (aggs : List AggExpr) (c1 c2 : List (Lis
   rw [hashAgg_chunking gc aggs c1, hashAgg_chunking gc aggs c2, h]
 
 /-- N: three chunkings of four rows (two groups, sum and collect) give the same two result rows. -/
-example :
+theorem chunking_nonvacuous :
     let rows : List Row := [[.int 1, .int 10], [.int 2, .int 5], [.int 1, .null], [.int 1, .int 7]]
     let aggs : List AggExpr := [⟨.sum, some 1, false⟩, ⟨.collect, some 1, false⟩]
     hashAgg [0] aggs [rows] = [[.int 1, .int 17, .list [.int 10, .int 7]], [.int 2, .int 5, .list [.int 5]]] ∧
@@ -432,7 +432,7 @@ theorem collect_distinct_eq_spec (vs : List Val) :
   simp [specAgg, collect_distinct_coded]
 
 /-- N: counts and collections over a heterogeneous column with nulls and duplicates. -/
-example :
+theorem count_collect_nonvacuous :
     let vs : List Val := [.int 2, .null, .str "a", .int 2, .null, .str "7"]
     colAgg .count false vs = .int 6 ∧ colAgg .countNonNull false vs = .int 4 ∧
     colAgg .countNonNull true vs = .int 3 ∧ colAgg .collect true vs = .list [.int 2, .str "a", .str "7"] := by
@@ -450,7 +450,8 @@ theorem intSum_cons (v : Val) (vs : List Val) : intSum (v :: vs) = intOf v + int
   rw [List.map_cons, List.foldl_cons, foldl_add_acc]
   omega
 
-/-- no intermediate sum leaves the 64-bit range (the operator adds with overflow checks) -/
+/-- no intermediate sum leaves the 64-bit range (at the first that does, the operator switches to
+its float accumulator for good) -/
 def prefixOK (s : Int) : List Val → Bool
   | [] => true
   | v :: vs => inI64 (s + intOf v) && prefixOK (s + intOf v) vs
@@ -467,7 +468,7 @@ theorem foldl_update_sumInt (s : Int) (l : List Val) (hint : l.all isInt = true)
     | str t => simp [isInt] at hint
     | int i =>
       simp only [intOf] at hok
-      simp only [List.foldl_cons, St.update, sumIntStep, addI64, hok.1, if_true]
+      simp only [List.foldl_cons, St.update, sumIntStep, hok.1, if_true]
       rw [ih (s + i) hint.2 hok.2, intSum_cons]
       simp only [intOf]
       congr 1
@@ -506,7 +507,8 @@ theorem sum_eq_spec_partial (vs : List Val) (h : sumOK vs = true) :
   simp [specAgg, h.1, hr]
 
 /-- W: the full statement is false. Numeric strings are parsed and summed as floats (specification:
-type error); text is skipped silently; an intermediate overflow panics although the sum fits. -/
+type error); text is skipped silently; after an intermediate overflow the result is a float
+although the sum fits. -/
 theorem sum_not_spec :
     ¬ ∀ vs : List Val, specAgg .sum false vs = .ok (colAgg .sum false vs) := by
   intro h
@@ -522,12 +524,51 @@ theorem sum_text_skipped_witness :
   refine ⟨by decide, by decide⟩
 
 theorem sum_prefix_overflow_witness :
-    colAgg .sum false [.int (2 ^ 63 - 1), .int 1, .int (-5)] = .panic ∧
+    colAgg .sum false [.int (2 ^ 63 - 1), .int 1, .int (-5)] = .float 0x43e0000000000000 ∧
     specAgg .sum false [.int (2 ^ 63 - 1), .int 1, .int (-5)] = .ok (.int (2 ^ 63 - 5)) := by
-  refine ⟨by decide, by decide⟩
+  refine ⟨by decide +kernel, by decide⟩
+
+/-- once in the float accumulator, the sum stays there -/
+theorem foldl_update_sumFloat (f : Nat) (l : List Val) :
+    ∃ f', l.foldl St.update (.sumFloat f) = .sumFloat f' := by
+  induction l generalizing f with
+  | nil => exact ⟨f, rfl⟩
+  | cons v vs ih => simp only [List.foldl_cons, St.update]; exact ih _
+
+/-- F (3), after the repair of the overflow: over integers the coded `sum` never fails — it is the
+exact integer sum, or (from the first intermediate overflow on) a float. -/
+theorem sum_ints_total (vs : List Val) (hint : (nonNull vs).all isInt = true) :
+    colAgg .sum false vs = .int (intSum (nonNull vs)) ∨ ∃ f, colAgg .sum false vs = .float f := by
+  unfold colAgg
+  rw [foldl_feed_nonNull _ _ (by simp)]
+  simp only [St.init]
+  have key : ∀ (l : List Val) (s : Int), l.all isInt = true →
+      (l.foldl St.update (.sumInt s) = .sumInt (s + intSum l)) ∨ ∃ f, l.foldl St.update (.sumInt s) = .sumFloat f := by
+    intro l
+    induction l with
+    | nil => intro s _; left; simp [intSum]
+    | cons v vs ih =>
+      intro s hl
+      simp only [List.all_cons, Bool.and_eq_true] at hl
+      cases v with
+      | null => simp [isInt] at hl
+      | str t => simp [isInt] at hl
+      | int i =>
+        simp only [List.foldl_cons, St.update, sumIntStep]
+        by_cases hin : inI64 (s + i) = true
+        · simp only [hin, if_true]
+          rcases ih (s + i) hl.2 with h | h
+          · left; rw [h, intSum_cons]; simp only [intOf]; congr 1; omega
+          · right; exact h
+        · simp only [hin, Bool.false_eq_true, if_false]
+          right
+          exact foldl_update_sumFloat _ _
+  rcases key (nonNull vs) 0 hint with h | ⟨f, h⟩
+  · left; rw [h]; simp [St.finalize]
+  · right; exact ⟨f, by rw [h]; simp [St.finalize]⟩
 
 /-- N: the hypothesis holds on a column with nulls and negative numbers; both sides are 6. -/
-example : sumOK [.int 10, .null, .int (-4)] = true ∧ colAgg .sum false [.int 10, .null, .int (-4)] = .int 6 := by
+theorem sum_nonvacuous : sumOK [.int 10, .null, .int (-4)] = true ∧ colAgg .sum false [.int 10, .null, .int (-4)] = .int 6 := by
   refine ⟨by decide, by decide⟩
 
 /-! ### min / max -/
@@ -770,7 +811,7 @@ theorem min_mixed_order_dependent :
   refine ⟨by decide, by decide⟩
 
 /-- N -/
-example : colAgg .min false [.int 3, .null, .int (-2), .int 7] = .int (-2) ∧
+theorem min_max_nonvacuous : colAgg .min false [.int 3, .null, .int (-2), .int 7] = .int (-2) ∧
     colAgg .max false [.int 3, .null, .int (-2), .int 7] = .int 7 ∧
     (nonNull [.int 3, .null, .int (-2), .int 7]).all isInt = true := by
   refine ⟨by decide, by decide, by decide⟩
@@ -937,5 +978,1039 @@ theorem roundQ_congr (neg : Bool) (n1 d1 n2 d2 : Nat) (h1 : 0 < d1) (h2 : 0 < d2
     roundQ neg n1 d1 = roundQ neg n2 d2 := by
   rw [← roundQ_scale neg d2 n1 d1 h2, ← roundQ_scale neg d1 n2 d2 h1]
   rw [Nat.mul_comm d2 n1, h, Nat.mul_comm d1 n2, Nat.mul_comm d2 d1]
+
+/-! ### avg: exact integer sums, one rounding at the end -/
+
+open Grafeo.F64 in
+/-- the double `i as f64` is finite, has the sign of `i` and is exactly `i` (decidable; true for
+every `|i| ≤ 2^53`, and for larger `i` with enough trailing zero bits) -/
+def exactInt (i : Int) : Bool :=
+  (expField (ofInt i) != 2047) && decide ((toQ (ofInt i)).1 = i.natAbs * (toQ (ofInt i)).2) &&
+    (fNeg (ofInt i) == decide (i < 0))
+
+open Grafeo.F64 in
+theorem toQ_den_pos (b : Nat) : 0 < (toQ b).2 := by
+  unfold toQ
+  simp only
+  split
+  · exact Nat.two_pow_pos _
+  · split
+    · exact Nat.one_pos
+    · exact Nat.two_pow_pos _
+
+open Grafeo.F64 in
+theorem finite_not_special (b : Nat) (h : (expField b != 2047) = true) : isNaN b = false ∧ isInf b = false := by
+  have : (expField b == 2047) = false := by simpa using h
+  simp [isNaN, isInf, this]
+
+open Grafeo.F64 in
+theorem mag_zero_toQ (b : Nat) (h : mag b = 0) : (toQ b).1 = 0 := by
+  have h2 : expField b = 0 ∧ fracField b = 0 := by
+    unfold mag at h
+    unfold expField fracField
+    omega
+  simp [toQ, h2.1, h2.2]
+
+theorem exactInt_unpack (i : Int) (h : exactInt i = true) :
+    (F64.expField (ofInt i) != 2047) = true ∧ (toQ (ofInt i)).1 = i.natAbs * (toQ (ofInt i)).2 ∧
+      fNeg (ofInt i) = decide (i < 0) := by
+  simp only [exactInt, Bool.and_eq_true, decide_eq_true_eq, beq_iff_eq] at h
+  exact ⟨h.1.1, h.1.2, h.2⟩
+
+theorem signedNum_exact (x : Int) (o : Nat) (h : exactInt x = true) :
+    signedNum (ofInt x) o = x * (((toQ (ofInt x)).2 : Int) * ((toQ o).2 : Int)) := by
+  obtain ⟨_, hq, hs⟩ := exactInt_unpack x h
+  unfold signedNum
+  simp only [hs, hq, decide_eq_true_eq]
+  by_cases hx : x < 0
+  · have hn : ((x.natAbs : Nat) : Int) = -x := by omega
+    simp only [hx, if_true]
+    push_cast
+    rw [hn]
+    grind
+  · have hn : ((x.natAbs : Nat) : Int) = x := by omega
+    simp only [hx, if_false]
+    push_cast
+    rw [hn]
+    grind
+
+theorem ofInt_zero : ofInt 0 = 0 := by decide
+
+/-- F: the float sum of two exactly represented integers is the correctly rounded integer sum. -/
+theorem fadd_exact (x y : Int) (hx : exactInt x = true) (hy : exactInt y = true) :
+    fadd (ofInt x) (ofInt y) = ofInt (x + y) := by
+  obtain ⟨fx, _, sx⟩ := exactInt_unpack x hx
+  obtain ⟨fy, _, sy⟩ := exactInt_unpack y hy
+  obtain ⟨nx, ix⟩ := finite_not_special _ fx
+  obtain ⟨ny, iy⟩ := finite_not_special _ fy
+  unfold fadd
+  simp only [nx, ny, ix, iy, Bool.or_self, Bool.false_eq_true, if_false]
+  rw [signedNum_exact x _ hx, signedNum_exact y _ hy]
+  have hP : 0 < (toQ (ofInt x)).2 * (toQ (ofInt y)).2 := Nat.mul_pos (toQ_den_pos _) (toQ_den_pos _)
+  generalize hPdef : (toQ (ofInt x)).2 * (toQ (ofInt y)).2 = P at hP
+  have hsum : x * (((toQ (ofInt x)).2 : Int) * ((toQ (ofInt y)).2 : Int)) + y * (((toQ (ofInt y)).2 : Int) * ((toQ (ofInt x)).2 : Int))
+      = (x + y) * (P : Int) := by
+    rw [← hPdef]
+    push_cast
+    grind
+  rw [hsum]
+  by_cases hz : x + y = 0
+  · have hneg : (fNeg (ofInt x) && fNeg (ofInt y)) = false := by
+      rw [sx, sy]
+      by_cases h1 : x < 0 <;> by_cases h2 : y < 0 <;> simp [h1, h2] <;> omega
+    simp [hz, hneg, ofInt_zero]
+  · have hPi : (0 : Int) < (P : Int) := by exact_mod_cast hP
+    have hne : (x + y) * (P : Int) ≠ 0 := Int.mul_ne_zero hz (by omega)
+    simp only [hne, if_false]
+    have hsign : decide ((x + y) * (P : Int) < 0) = decide (x + y < 0) := by
+      by_cases hlt : x + y < 0
+      · have := Int.mul_neg_of_neg_of_pos hlt hPi
+        simp [hlt, this]
+      · have hgt : 0 < x + y := by omega
+        have := Int.mul_pos hgt hPi
+        have h2 : ¬ (x + y) * (P : Int) < 0 := by omega
+        simp [hlt, h2]
+    rw [hsign, Int.natAbs_mul, Int.natAbs_natCast]
+    unfold ofInt
+    rw [Nat.mul_comm (x + y).natAbs P]
+    have := roundQ_scale (decide (x + y < 0)) P (x + y).natAbs 1 hP
+    rw [Nat.mul_one] at this
+    exact this
+
+/-- F: the float quotient of an exactly represented integer and an exactly represented positive
+count is the correctly rounded exact mean. -/
+theorem fdiv_exact (S : Int) (k : Nat) (hk : 0 < k) (hS : exactInt S = true) (hK : exactInt (k : Int) = true) :
+    fdiv (ofInt S) (ofInt (k : Int)) = meanF64 S k := by
+  obtain ⟨fS, qS, sS⟩ := exactInt_unpack S hS
+  obtain ⟨fK, qK, sK⟩ := exactInt_unpack (k : Int) hK
+  obtain ⟨nS, iS⟩ := finite_not_special _ fS
+  obtain ⟨nK, iK⟩ := finite_not_special _ fK
+  have hkneg : decide ((k : Int) < 0) = false := by simp
+  have hnegeq : (fNeg (ofInt S) != fNeg (ofInt (k : Int))) = decide (S < 0) := by
+    rw [sS, sK, hkneg]
+    simp
+  simp only [Int.natAbs_natCast] at qK
+  have hmagK : F64.mag (ofInt (k : Int)) ≠ 0 := by
+    intro h
+    have h0 := mag_zero_toQ _ h
+    rw [qK] at h0
+    have := Nat.mul_pos hk (toQ_den_pos (ofInt (k : Int)))
+    omega
+  unfold fdiv meanF64
+  simp only [nS, nK, iS, iK, Bool.or_self, Bool.false_eq_true, if_false, hmagK, hnegeq]
+  by_cases hmS : F64.mag (ofInt S) = 0
+  · have h0 := mag_zero_toQ _ hmS
+    rw [qS] at h0
+    have hS0 : S.natAbs = 0 := by
+      rcases Nat.mul_eq_zero.1 h0 with h | h
+      · exact h
+      · have := toQ_den_pos (ofInt S); omega
+    simp [hmS, hS0, roundQ]
+  · simp only [hmS, if_false]
+    apply roundQ_congr
+    · exact Nat.mul_pos (toQ_den_pos _) (by rw [qK]; exact Nat.mul_pos hk (toQ_den_pos _))
+    · exact hk
+    · rw [qS, qK]
+      grind
+
+/-- every value and every running sum is exactly representable -/
+def exactRun (s : Int) : List Val → Bool
+  | [] => true
+  | v :: vs => exactInt (intOf v) && exactInt (s + intOf v) && exactRun (s + intOf v) vs
+
+theorem foldl_update_avg (s c : Int) (l : List Val) (hint : l.all isInt = true) (hs : exactInt s = true)
+    (hr : exactRun s l = true) :
+    l.foldl St.update (.avg (ofInt s) c) = .avg (ofInt (s + intSum l)) (c + l.length) ∧ exactInt (s + intSum l) = true := by
+  induction l generalizing s c with
+  | nil => simpa [intSum] using hs
+  | cons v vs ih =>
+    simp only [List.all_cons, Bool.and_eq_true] at hint
+    simp only [exactRun, Bool.and_eq_true] at hr
+    cases v with
+    | null => simp [isInt] at hint
+    | str t => simp [isInt] at hint
+    | int i =>
+      simp only [intOf] at hr
+      simp only [List.foldl_cons, St.update, valueToF64]
+      rw [fadd_exact s i hs hr.1.1]
+      obtain ⟨h1, h2⟩ := ih (s + i) (c + 1) hint.2 hr.1.2 hr.2
+      rw [h1, intSum_cons]
+      simp only [intOf, List.length_cons]
+      refine ⟨?_, ?_⟩
+      · congr 1
+        · congr 1; omega
+        · push_cast; omega
+      · rw [← Int.add_assoc]; exact h2
+
+/-- hypothesis of the partial theorem: integers only; every value, every running sum and the
+count convert to a double without rounding -/
+def avgOK (vs : List Val) : Bool :=
+  (nonNull vs).all isInt && exactRun 0 (nonNull vs) && exactInt ((nonNull vs).length : Int)
+
+/-- P (3): then the coded `avg` is the exact mean rounded once — what the specification demands. -/
+theorem avg_eq_spec_partial (vs : List Val) (h : avgOK vs = true) :
+    specAgg .avg false vs = .ok (colAgg .avg false vs) := by
+  simp only [avgOK, Bool.and_eq_true] at h
+  unfold colAgg
+  rw [foldl_feed_nonNull _ _ (by simp)]
+  simp only [St.init]
+  have h0 : St.avg 0 0 = St.avg (ofInt 0) 0 := by rw [ofInt_zero]
+  obtain ⟨hf, hex⟩ := foldl_update_avg 0 0 (nonNull vs) h.1.1 (by decide +kernel) h.1.2
+  rw [h0, hf]
+  simp only [Int.zero_add] at hex ⊢
+  have hspec : specAgg .avg false vs =
+      (if !(nonNull vs).all isInt then .err "type"
+       else if (nonNull vs).isEmpty then .ok .null
+       else .ok (.float (meanF64 (intSum (nonNull vs)) (nonNull vs).length))) := rfl
+  have hall : (nonNull vs).all isInt = true := h.1.1
+  rw [hspec]
+  simp only [hall, Bool.not_true, Bool.false_eq_true, if_false]
+  cases hnn : nonNull vs with
+  | nil => simp [St.finalize]
+  | cons v l =>
+    have hlen : 0 < (nonNull vs).length := by rw [hnn]; simp
+    have hne : ((nonNull vs).length : Int) ≠ 0 := by omega
+    rw [← hnn]
+    simp only [St.finalize, hne, if_false]
+    rw [fdiv_exact _ _ hlen hex h.2]
+    have hemp : (nonNull vs).isEmpty = false := by rw [hnn]; rfl
+    simp only [hemp, Bool.false_eq_true, if_false]
+
+/-- W: the full statement is false: beyond 2^53 the running float sum rounds at every step
+(2^53 + 1 + 1 stays 2^53), so the coded mean is not the rounded exact mean. -/
+theorem avg_not_spec : ¬ ∀ vs : List Val, specAgg .avg false vs = .ok (colAgg .avg false vs) := by
+  intro h
+  exact absurd (h [.int (2 ^ 53), .int 1, .int 1]) (by decide +kernel)
+
+theorem avg_rounding_witness :
+    colAgg .avg false [.int (2 ^ 53), .int 1, .int 1] = .float 4838367199671702869 ∧
+    specAgg .avg false [.int (2 ^ 53), .int 1, .int 1] = .ok (.float 4838367199671702871) := by
+  refine ⟨by decide +kernel, by decide +kernel⟩
+
+/-- W: numeric strings enter the mean ("3" and 1 average to 2.0; specification: type error). -/
+theorem avg_numeric_strings_witness :
+    colAgg .avg false [.str "3", .int 1] = .float 0x4000000000000000 ∧
+    specAgg .avg false [.str "3", .int 1] = .err "type" := by
+  refine ⟨by decide +kernel, by decide⟩
+
+/-- N: the hypothesis holds for a column with a null and a negative value; the mean 5/3 is
+0x3ffaaaaaaaaaaaab on both sides. -/
+theorem avg_nonvacuous : avgOK [.int 7, .null, .int (-4), .int 2] = true ∧
+    colAgg .avg false [.int 7, .null, .int (-4), .int 2] = .float 0x3ffaaaaaaaaaaaab := by
+  refine ⟨by decide +kernel, by decide +kernel⟩
+
+/-! ### every integer below 2^53 is exact: the hypothesis of the avg theorem in closed form -/
+
+theorem floorLog2Q_one (n : Nat) (hn : n ≠ 0) : floorLog2Q n 1 = (Nat.log2 n : Int) := by
+  let K := bitLength 1 + 1
+  obtain ⟨k1, s1⟩ := floorLog2Q_spec n 1 hn (by decide) K (by omega)
+  have hlo := Nat.log2_self_le hn
+  have hhi := @Nat.lt_log2_self n
+  have s2 : IsFloorLog n 1 (Nat.log2 n : Int) K := by
+    unfold IsFloorLog
+    have e1 : ((K : Int) + (Nat.log2 n : Int)).toNat = Nat.log2 n + K := by omega
+    have e2 : ((K : Int) + (Nat.log2 n : Int) + 1).toNat = (Nat.log2 n + 1) + K := by omega
+    rw [e1, e2, Nat.pow_add, Nat.pow_add (m := Nat.log2 n + 1)]
+    refine ⟨?_, ?_⟩
+    · rw [Nat.one_mul]; exact Nat.mul_le_mul_right _ hlo
+    · rw [Nat.one_mul]; exact Nat.mul_lt_mul_of_lt_of_le hhi (Nat.le_refl _) (Nat.two_pow_pos K)
+  exact isFloorLog_unique n 1 _ _ K k1 (by omega) s1 s2
+
+theorem roundHalfEven_one (N : Nat) : roundHalfEven N 1 = N := by
+  unfold roundHalfEven
+  simp [Nat.mod_one]
+
+theorem exactBits (neg : Bool) (L M : Nat) (hL : L ≤ 52) (hM : M < 2 ^ 52) :
+    F64.expField (signOf neg + ((L + 1023) * 2 ^ 52 + M)) = L + 1023 ∧
+    F64.fracField (signOf neg + ((L + 1023) * 2 ^ 52 + M)) = M ∧
+    fNeg (signOf neg + ((L + 1023) * 2 ^ 52 + M)) = neg := by
+  cases neg
+  · simp only [signOf, Bool.false_eq_true, ↓reduceIte, F64.expField, F64.fracField, fNeg, F64.signBit]
+    refine ⟨by omega, by omega, ?_⟩
+    simp
+    omega
+  · simp only [signOf, ↓reduceIte, F64.expField, F64.fracField, fNeg, F64.signBit]
+    refine ⟨by omega, by omega, ?_⟩
+    simp
+    omega
+
+/-- F: every integer of magnitude below 2^53 converts to a double without rounding. -/
+theorem exactInt_small (i : Int) (h : i.natAbs < 2 ^ 53) : exactInt i = true := by
+  by_cases h0 : i = 0
+  · subst h0; decide +kernel
+  have hn : i.natAbs ≠ 0 := by omega
+  generalize hnd : i.natAbs = n at *
+  have hlo := Nat.log2_self_le hn
+  have hhi := @Nat.lt_log2_self n
+  generalize hLd : Nat.log2 n = L at *
+  have hL : L ≤ 52 := by
+    apply Classical.byContradiction
+    intro hc
+    have : 2 ^ 53 ≤ 2 ^ L := Nat.pow_le_pow_right (by decide) (by omega)
+    omega
+  -- the scaled mantissa
+  have hNlo : 2 ^ 52 ≤ n * 2 ^ (52 - L) := by
+    have := Nat.mul_le_mul_right (2 ^ (52 - L)) hlo
+    rw [← Nat.pow_add, show L + (52 - L) = 52 by omega] at this
+    exact this
+  have hNhi : n * 2 ^ (52 - L) < 2 ^ 53 := by
+    have := Nat.mul_lt_mul_of_lt_of_le hhi (Nat.le_refl (2 ^ (52 - L))) (Nat.two_pow_pos _)
+    rw [← Nat.pow_add, show L + 1 + (52 - L) = 53 by omega] at this
+    exact this
+  have hof : ofInt i = signOf (decide (i < 0)) + ((L + 1023) * 2 ^ 52 + (n * 2 ^ (52 - L) - 2 ^ 52)) := by
+    unfold ofInt
+    rw [hnd, roundQ_pos _ _ _ hn (by decide), floorLog2Q_one n hn, hLd]
+    unfold roundCore
+    have e1 : ((L : Int) ≥ -1022) := by omega
+    have e2 : ((52 : Int) - (L : Int) ≥ 0) := by omega
+    have e3 : ((52 : Int) - (L : Int)).toNat = 52 - L := by omega
+    have e4 : ((L : Int) + 1022).toNat = L + 1022 := by omega
+    simp only [e1, e2, if_true, e3, e4, roundHalfEven_one]
+    have hlt : ¬ ((L + 1022) * 2 ^ 52 + n * 2 ^ (52 - L) ≥ fInf) := by
+      unfold fInf
+      omega
+    simp only [hlt, if_false]
+    omega
+  obtain ⟨hE, hF, hS⟩ := exactBits (decide (i < 0)) L (n * 2 ^ (52 - L) - 2 ^ 52) hL (by omega)
+  unfold exactInt
+  rw [hof, hE, hS]
+  have hq : toQ (signOf (decide (i < 0)) + ((L + 1023) * 2 ^ 52 + (n * 2 ^ (52 - L) - 2 ^ 52))) =
+      if L = 52 then (n, 1) else (n * 2 ^ (52 - L), 2 ^ (52 - L)) := by
+    unfold toQ
+    simp only [hE, hF]
+    have hne : ¬ (L + 1023 = 0) := by omega
+    simp only [hne, if_false]
+    by_cases h52 : L = 52
+    · subst h52
+      have hge : (52 + 1023 ≥ 1075) := by omega
+      simp only [hge, if_true, Nat.sub_self, Nat.pow_zero, Nat.mul_one]
+      simp only [Nat.sub_self, Nat.pow_zero, Nat.mul_one] at hNlo
+      simp only [Prod.mk.injEq, and_true]
+      omega
+    · have hlt : ¬ (L + 1023 ≥ 1075) := by omega
+      have e5 : 1075 - (L + 1023) = 52 - L := by omega
+      simp only [hlt, if_false, h52, e5, Prod.mk.injEq, and_true]
+      omega
+  rw [hq, hnd]
+  by_cases h52 : L = 52
+  · simp [h52]
+  · simp [h52]
+    omega
+
+/-- every value and every running sum is below 2^53 in magnitude -/
+def smallRun (s : Int) : List Val → Bool
+  | [] => true
+  | v :: vs => decide ((intOf v).natAbs < 2 ^ 53) && decide ((s + intOf v).natAbs < 2 ^ 53) && smallRun (s + intOf v) vs
+
+theorem exactRun_of_small (s : Int) (l : List Val) (h : smallRun s l = true) : exactRun s l = true := by
+  induction l generalizing s with
+  | nil => rfl
+  | cons v vs ih =>
+    simp only [smallRun, Bool.and_eq_true, decide_eq_true_eq] at h
+    simp only [exactRun, Bool.and_eq_true]
+    exact ⟨⟨exactInt_small _ h.1.1, exactInt_small _ h.1.2⟩, ih _ h.2⟩
+
+/-- P (3): over integers whose values and running sums stay below 2^53 (and fewer than 2^53 of
+them) the coded `avg` is the exact mean, rounded once to the nearest double. -/
+theorem avg_eq_spec_small (vs : List Val) (hint : (nonNull vs).all isInt = true)
+    (hsm : smallRun 0 (nonNull vs) = true) (hlen : (nonNull vs).length < 2 ^ 53) :
+    specAgg .avg false vs = .ok (colAgg .avg false vs) := by
+  apply avg_eq_spec_partial
+  simp only [avgOK, Bool.and_eq_true]
+  exact ⟨⟨hint, exactRun_of_small _ _ hsm⟩, exactInt_small _ (by simpa using hlen)⟩
+
+/-- N -/
+theorem avg_small_nonvacuous : smallRun 0 (nonNull [.int 7, .null, .int (-4), .int 2]) = true ∧
+    specAgg .avg false [.int 7, .null, .int (-4), .int 2] = .ok (.float 0x3ffaaaaaaaaaaaab) := by
+  refine ⟨by decide, by decide +kernel⟩
+
+
+/-! ## 4. the query level -/
+
+theorem keyOf_range_append (ks rest : List Val) :
+    keyOf (List.range ks.length) (ks ++ rest) = ks := by
+  unfold keyOf
+  apply List.ext_getElem
+  · simp
+  · intro i h1 h2
+    simp only [List.length_map, List.length_range] at h1
+    simp [List.getElem?_append_left h1, List.getElem?_eq_getElem h1]
+
+theorem keyVals_length (q : AggQ) (b : Binding) : (keyVals q b).length = (keyItems q.items).length := by
+  simp [keyVals]
+
+theorem keyOf_opRow (q : AggQ) (b : Binding) :
+    keyOf (List.range (keyItems q.items).length) (opRow q b) = keyVals q b := by
+  unfold opRow
+  rw [← keyVals_length q b]
+  exact keyOf_range_append _ _
+
+/-- the bindings that pass WHERE and carry the key `k` -/
+def groupOf (q : AggQ) (bs : List Binding) (k : List Val) : List Binding :=
+  (bs.filter (passes q.preds)).filter (fun b => keyVals q b == k)
+
+/-- F (2) at the query level: for a query with group keys, the rows the aggregate operator returns
+are: for every distinct key tuple of the bindings that pass the predicate — in first-seen order —
+the key followed by the simple aggregate over the bindings that carry this key. -/
+theorem aggRows_grouped (q : AggQ) (bs : List Binding) (hk : (keyItems q.items).length ≠ 0) :
+    aggRows q bs =
+      (dedupKeys ((bs.filter (passes q.preds)).map (keyVals q))).map (fun k =>
+        k.map ofVal ++ simpleAgg (physAggs q) [(groupOf q bs k).map (opRow q)]) := by
+  unfold aggRows groupOf
+  simp only [hk, if_false]
+  rw [hashAgg_eq_perGroup]
+  have hf : (keyOf (List.range (keyItems q.items).length) ∘ opRow q) = keyVals q := funext (keyOf_opRow q)
+  simp only [List.flatten_cons, List.flatten_nil, List.append_nil, List.map_map, hf]
+  apply List.map_congr_left
+  intro k _
+  congr 3
+  rw [List.filter_map]
+  congr 1
+  apply List.filter_congr
+  intro b _
+  simp [Function.comp, keyOf_opRow]
+
+/-- … and without keys it is the simple aggregate over all of them: one row, also for no binding. -/
+theorem aggRows_global (q : AggQ) (bs : List Binding) (hk : (keyItems q.items).length = 0) :
+    aggRows q bs = [simpleAgg (physAggs q) [(bs.filter (passes q.preds)).map (opRow q)]] := by
+  unfold aggRows
+  simp [hk]
+
+/-! ### several aggregates at once = each aggregate on its own column -/
+
+theorem foldl_feedAll_nil (sts : List St) (rows : List Row) (h : rows ≠ []) : rows.foldl (feedAll []) sts = [] := by
+  induction rows generalizing sts with
+  | nil => exact absurd rfl h
+  | cons r rs ih =>
+    cases rs with
+    | nil => rfl
+    | cons r' rs' => rw [List.foldl_cons]; exact ih _ (by simp)
+
+theorem foldl_feedAll_cons (a : AggExpr) (as : List AggExpr) (st : St) (sts : List St) (rows : List Row) :
+    rows.foldl (feedAll (a :: as)) (st :: sts) = rows.foldl (feed a) st :: rows.foldl (feedAll as) sts := by
+  induction rows generalizing st sts with
+  | nil => rfl
+  | cons r rs ih => simp only [List.foldl_cons, feedAll, ih]
+
+theorem foldl_feedAll_init (aggs : List AggExpr) (rows : List Row) :
+    rows.foldl (feedAll aggs) (initAll aggs) = aggs.map (fun a => rows.foldl (feed a) (St.init a.fn a.distinct)) := by
+  induction aggs with
+  | nil =>
+    cases rows with
+    | nil => rfl
+    | cons r rs => exact foldl_feedAll_nil _ _ (by simp)
+  | cons a as ih =>
+    have : initAll (a :: as) = St.init a.fn a.distinct :: initAll as := rfl
+    rw [this, foldl_feedAll_cons, ih]
+    rfl
+
+/-- an aggregate reads only its own column -/
+theorem foldl_feed_column (fn : AggFn) (c : Nat) (d : Bool) (st : St) (rows : List Row) :
+    rows.foldl (feed ⟨fn, some c, d⟩) st =
+      ((rows.map (fun r => r.getD c .null)).map (fun v => [v])).foldl (feed ⟨fn, some 0, d⟩) st := by
+  induction rows generalizing st with
+  | nil => rfl
+  | cons r rs ih =>
+    simp only [List.map_cons, List.foldl_cons]
+    have hstep : feed ⟨fn, some c, d⟩ st r = feed ⟨fn, some 0, d⟩ st [r.getD c .null] := by
+      unfold feed
+      simp only [Option.bind, List.getD_eq_getElem?_getD, List.getElem?_cons_zero]
+      cases hrc : r[c]? with
+      | none => simp
+      | some v => simp
+    rw [hstep, ih]
+
+/-- F: `SimpleAggregateOperator` with several aggregates returns, for each of them, the aggregate
+of its own column. -/
+theorem simpleAgg_columns (aggs : List AggExpr) (rows : List Row) :
+    simpleAgg aggs [rows] = aggs.map (fun a => (rows.foldl (feed a) (St.init a.fn a.distinct)).finalize) := by
+  unfold simpleAgg
+  rw [runChunks_flatten]
+  simp [foldl_feedAll_init, List.map_map, Function.comp]
+
+/-- the coded value of one aggregate item over a group of bindings -/
+def codedCell (grp : List Binding) : Item → AVal
+  | .agg fn d s => colAgg (specFn fn) d (grp.map (fun b => srcVal b s))
+  | .key _ _ => .null
+
+/-- the specified value of one aggregate item over a group of bindings -/
+def specCellOf (grp : List Binding) : Item → SRes
+  | .agg fn d s => specAgg (specFn fn) d (grp.map (fun b => srcVal b s))
+  | .key _ _ => .ok .null
+
+theorem opRow_agg_column (q : AggQ) (b : Binding) (j : Nat) (it : Item) (h : (aggItems q.items)[j]? = some it) :
+    (opRow q b).getD ((keyItems q.items).length + j) .null = srcVal b (itemSrc it) := by
+  unfold opRow
+  rw [List.getD_eq_getElem?_getD, List.getElem?_append_right (by rw [keyVals_length]; omega), keyVals_length]
+  simp [aggVals, h]
+
+/-- F: the aggregate part of the operator's row for a group = the coded cell of every aggregate
+item, in the order of the items. -/
+theorem simpleAgg_opRows (q : AggQ) (grp : List Binding) :
+    simpleAgg (physAggs q) [grp.map (opRow q)] = (aggItems q.items).map (codedCell grp) := by
+  rw [simpleAgg_columns]
+  unfold physAggs
+  rw [List.map_map]
+  have hfst := List.zipIdx_map_fst 0 (aggItems q.items)
+  conv => rhs; rw [← hfst, List.map_map]
+  apply List.map_congr_left
+  intro ⟨it, j⟩ hmem
+  have hget : (aggItems q.items)[j]? = some it := List.mem_zipIdx_iff_getElem?.1 hmem
+  have hnk : it.isKey = false := by
+    have := List.mem_of_getElem? hget
+    simp only [aggItems, List.mem_filter, Bool.not_eq_true'] at this
+    exact this.2
+  cases it with
+  | key v k => simp [Item.isKey] at hnk
+  | agg fn d s =>
+    simp only [Function.comp, physAgg, codedCell, colAgg]
+    rw [foldl_feed_column]
+    congr 2
+    simp only [List.map_map]
+    apply List.map_congr_left
+    intro b _
+    simpa [itemSrc] using opRow_agg_column q b j _ hget
+
+/-! ### the specification's row for a key-first RETURN list -/
+
+theorem specCells_aggs (grp : List Binding) (ks : List Val) (A : List Item) (hA : ∀ x ∈ A, x.isKey = false) :
+    specCells grp ks A = A.map (specCellOf grp) := by
+  induction A with
+  | nil => rfl
+  | cons it rest ih =>
+    cases it with
+    | key v k => have := hA (.key v k) (by simp); simp [Item.isKey] at this
+    | agg fn d s =>
+      simp only [specCells, List.map_cons, specCellOf]
+      rw [ih (fun x hx => hA x (List.mem_cons_of_mem _ hx))]
+
+theorem specCells_keys (grp : List Binding) (K A : List Item) (k : List Val)
+    (hK : ∀ x ∈ K, x.isKey = true) (hA : ∀ x ∈ A, x.isKey = false) (hlen : k.length = K.length) :
+    specCells grp k (K ++ A) = k.map (fun v => .ok (ofVal v)) ++ A.map (specCellOf grp) := by
+  induction K generalizing k with
+  | nil =>
+    have : k = [] := List.eq_nil_of_length_eq_zero (by simpa using hlen)
+    subst this
+    simpa using specCells_aggs grp [] A hA
+  | cons it rest ih =>
+    cases k with
+    | nil => simp at hlen
+    | cons v vs =>
+      cases it with
+      | agg fn d s => have := hK (.agg fn d s) (by simp); simp [Item.isKey] at this
+      | key a b =>
+        simp only [List.cons_append, specCells, List.headD_cons, List.tail_cons, List.map_cons]
+        rw [ih vs (fun x hx => hK x (List.mem_cons_of_mem _ hx)) (by simpa using hlen)]
+
+theorem keyItems_isKey (items : List Item) : ∀ x ∈ keyItems items, x.isKey = true := by
+  intro x hx
+  simp only [keyItems, List.mem_filter] at hx
+  exact hx.2
+
+theorem aggItems_notKey (items : List Item) : ∀ x ∈ aggItems items, x.isKey = false := by
+  intro x hx
+  simp only [aggItems, List.mem_filter, Bool.not_eq_true'] at hx
+  exact hx.2
+
+/-- RETURN lists its keys first (the layout the operator produces anyway) -/
+def KeysFirst (q : AggQ) : Prop := q.items = keyItems q.items ++ aggItems q.items
+
+instance (q : AggQ) : Decidable (KeysFirst q) := by unfold KeysFirst; infer_instance
+
+theorem outPos_keysFirst (K A : List Item) (hK : ∀ x ∈ K, x.isKey = true) (hA : ∀ x ∈ A, x.isKey = false)
+    (i : Nat) (hi : i < (K ++ A).length) : outPos (K ++ A) i = i := by
+  unfold outPos
+  have hkf : keyItems (K ++ A) = K := by
+    simp only [keyItems, List.filter_append]
+    rw [List.filter_eq_self.2 hK, List.filter_eq_nil_iff.2 (fun x hx => by simp [hA x hx])]
+    simp
+  by_cases hlt : i < K.length
+  · have hg : (K ++ A)[i]? = some K[i] := by rw [List.getElem?_append_left hlt]; simp
+    have hik : K[i].isKey = true := hK _ (List.getElem_mem _)
+    rw [hg]
+    simp only [hik, if_true]
+    rw [List.take_append_of_le_length (by omega)]
+    rw [List.filter_eq_self.2 (fun x hx => hK x (List.mem_of_mem_take hx))]
+    simp; omega
+  · have hlen : i - K.length < A.length := by simp at hi; omega
+    have hg : (K ++ A)[i]? = some A[i - K.length] := by
+      rw [List.getElem?_append_right (by omega)]; simp [hlen]
+    have hik : A[i - K.length].isKey = false := hA _ (List.getElem_mem _)
+    rw [hg]
+    simp only [hik, Bool.false_eq_true, if_false, hkf]
+    rw [List.take_append, List.filter_append]
+    have h1 : (K.take i).filter (fun x => !x.isKey) = [] :=
+      List.filter_eq_nil_iff.2 (fun x hx => by simp [hK x (List.mem_of_mem_take hx)])
+    have h2 : (A.take (i - K.length)).filter (fun x => !x.isKey) = A.take (i - K.length) :=
+      List.filter_eq_self.2 (fun x hx => by simp [hA x (List.mem_of_mem_take hx)])
+    rw [h1, h2]
+    simp; omega
+
+/-! ### as coded = as specified, on the same bindings -/
+
+/-- the key tuples of the result: one empty tuple when RETURN has no key -/
+def resultKeys (q : AggQ) (bs : List Binding) : List (List Val) :=
+  if (keyItems q.items).isEmpty then [[]] else dedupKeys ((bs.filter (passes q.preds)).map (keyVals q))
+
+theorem groupOf_noKeys (q : AggQ) (bs : List Binding) (hk : (keyItems q.items).length = 0) :
+    groupOf q bs [] = bs.filter (passes q.preds) := by
+  unfold groupOf
+  apply List.filter_eq_self.2
+  intro b _
+  have : keyVals q b = [] := List.eq_nil_of_length_eq_zero (by rw [keyVals_length]; exact hk)
+  simp [this]
+
+/-- F: the rows of the aggregate operator, cell by cell: for every result key, the key values
+followed by the coded cell of every aggregate item. -/
+theorem aggRows_cells (q : AggQ) (bs : List Binding) :
+    aggRows q bs = (resultKeys q bs).map (fun k =>
+      k.map ofVal ++ (aggItems q.items).map (codedCell (groupOf q bs k))) := by
+  unfold resultKeys
+  by_cases hk : (keyItems q.items).length = 0
+  · have he : (keyItems q.items).isEmpty = true := by simpa [List.isEmpty_iff] using List.eq_nil_of_length_eq_zero hk
+    rw [aggRows_global q bs hk, he]
+    simp [simpleAgg_opRows, groupOf_noKeys q bs hk]
+  · have he : (keyItems q.items).isEmpty = false := by
+      cases h : keyItems q.items with
+      | nil => simp [h] at hk
+      | cons _ _ => rfl
+    rw [aggRows_grouped q bs hk, he]
+    simp [simpleAgg_opRows]
+
+theorem resultKeys_length (q : AggQ) (bs : List Binding) (k : List Val) (hk : k ∈ resultKeys q bs) :
+    k.length = (keyItems q.items).length := by
+  unfold resultKeys at hk
+  by_cases he : (keyItems q.items).isEmpty = true
+  · simp only [he, if_true, List.mem_singleton] at hk
+    subst hk
+    simp [List.isEmpty_iff.1 he]
+  · simp only [he, Bool.false_eq_true, if_false] at hk
+    have := (mem_dedupFirst _ _).1 hk
+    obtain ⟨b, _, rfl⟩ := List.mem_map.1 this
+    exact keyVals_length q b
+
+theorem map_sresVal_ok (r : List AVal) : (r.map SRes.ok).map sresVal = r := by
+  induction r with
+  | nil => rfl
+  | cons v vs ih => simp [sresVal, ih]
+
+theorem allOk_noErr (rows : List (List AVal)) :
+    ((rows.map (fun r => r.map SRes.ok)).flatten.filterMap sresErr).head? = none ∧
+    (rows.map (fun r => r.map SRes.ok)).flatten.any sresAny = false ∧
+    (rows.map (fun r => r.map SRes.ok)).map (fun r => r.map sresVal) = rows := by
+  refine ⟨?_, ?_, ?_⟩
+  · have : (rows.map (fun r => r.map SRes.ok)).flatten.filterMap sresErr = [] := by
+      rw [List.filterMap_eq_nil_iff]
+      intro x hx
+      simp only [List.mem_flatten, List.mem_map] at hx
+      obtain ⟨l, ⟨r, _, rfl⟩, hx⟩ := hx
+      obtain ⟨v, _, rfl⟩ := List.mem_map.1 hx
+      rfl
+    rw [this]; rfl
+  · rw [List.any_eq_false]
+    intro x hx
+    simp only [List.mem_flatten, List.mem_map] at hx
+    obtain ⟨l, ⟨r, _, rfl⟩, hx⟩ := hx
+    obtain ⟨v, _, rfl⟩ := List.mem_map.1 hx
+    simp [sresAny]
+  · rw [List.map_map]
+    conv => rhs; rw [← List.map_id rows]
+    apply List.map_congr_left
+    intro r _
+    exact map_sresVal_ok r
+
+/-- F (2)+(3), end to end on any list of bindings: for a query without `count(*)` whose RETURN
+lists the keys first, if on every group every aggregate cell as coded is the one specified, the
+whole result as coded — grouping, row layout, ORDER BY, SKIP, LIMIT — is the specified result. -/
+theorem finishAgg_eq_finishSpec (q : AggQ) (bs : List Binding)
+    (hcs : hasCountStar q = false) (hkf : KeysFirst q)
+    (hord : ∀ p ∈ q.orderBy, p.1 < q.items.length)
+    (hcells : ∀ k, ∀ it ∈ aggItems q.items,
+      specCellOf (groupOf q bs k) it = .ok (codedCell (groupOf q bs k) it)) :
+    finishAgg q bs = finishSpec q bs := by
+  have hcellsEq : (resultKeys q bs).map (specRow q (bs.filter (passes q.preds))) =
+      (aggRows q bs).map (fun r => r.map SRes.ok) := by
+    rw [aggRows_cells, List.map_map]
+    apply List.map_congr_left
+    intro k hk
+    have hlen := resultKeys_length q bs k hk
+    simp only [Function.comp, specRow]
+    have h1 : specCells (groupOf q bs k) k q.items =
+        specCells (groupOf q bs k) k (keyItems q.items ++ aggItems q.items) := congrArg _ hkf
+    show specCells (groupOf q bs k) k q.items = _
+    rw [h1, specCells_keys _ _ _ _ (keyItems_isKey _) (aggItems_notKey _) hlen, List.map_append, List.map_map, List.map_map]
+    congr 1
+    apply List.map_congr_left
+    intro it hit
+    exact hcells k it hit
+  have hsort : q.orderBy.map (fun (p : Nat × Bool) => (outPos q.items p.1, p.2)) = q.orderBy := by
+    have hop : ∀ i, i < q.items.length → outPos q.items i = i := by
+      intro i hi
+      have h2 : outPos q.items i = outPos (keyItems q.items ++ aggItems q.items) i := congrArg (fun l => outPos l i) hkf
+      rw [h2]
+      apply outPos_keysFirst _ _ (keyItems_isKey _) (aggItems_notKey _)
+      have h3 : q.items.length = (keyItems q.items ++ aggItems q.items).length := congrArg List.length hkf
+      omega
+    conv => rhs; rw [← List.map_id q.orderBy]
+    apply List.map_congr_left
+    intro p hp
+    simp [hop p.1 (hord p hp)]
+  obtain ⟨e1, e2, e3⟩ := allOk_noErr (aggRows q bs)
+  unfold finishAgg finishSpec
+  simp only [hcs, Bool.false_eq_true, if_false]
+  have hkeys : (if (keyItems q.items).isEmpty = true then [[]] else dedupKeys ((bs.filter (passes q.preds)).map (keyVals q))) =
+      resultKeys q bs := rfl
+  simp only [hkeys, hcellsEq, e1, e2, e3, Bool.false_eq_true, if_false]
+  have hsort' : q.orderBy.map (fun x => match x with | (i, asc) => (outPos q.items i, asc)) = q.orderBy := hsort
+  rw [hsort']
+
+/-- the aggregates whose coded value is the specified one on every input -/
+def simpleItem : Item → Bool
+  | .key _ _ => true
+  | .agg .count _ _ => true
+  | .agg .collect _ _ => true
+  | _ => false
+
+/-- F, the corollary without residual hypothesis: for every query whose RETURN lists group keys and
+then `count(x)`, `count(DISTINCT x)`, `collect(x)`, `collect(DISTINCT x)` aggregates (over
+properties or variables), on every list of bindings the result as coded is the result specified. -/
+theorem finishAgg_eq_finishSpec_counts (q : AggQ) (bs : List Binding)
+    (hs : q.items.all simpleItem = true) (hkf : KeysFirst q) (hord : ∀ p ∈ q.orderBy, p.1 < q.items.length) :
+    finishAgg q bs = finishSpec q bs := by
+  apply finishAgg_eq_finishSpec q bs _ hkf hord
+  · intro k it hit
+    have hmem : it ∈ q.items := by
+      simp only [aggItems, List.mem_filter] at hit
+      exact hit.1
+    have hsi := List.all_eq_true.1 hs it hmem
+    cases it with
+    | key v kk => rfl
+    | agg fn d s =>
+      cases fn <;> simp [simpleItem] at hsi
+      · cases d
+        · exact count_eq_spec _
+        · exact count_distinct_eq_spec _
+      · cases d
+        · exact collect_eq_spec _
+        · exact collect_distinct_eq_spec _
+  · unfold hasCountStar
+    rw [List.any_eq_false]
+    intro it hit
+    have hsi := List.all_eq_true.1 hs it hit
+    cases it with
+    | key v kk => simp
+    | agg fn d s => cases fn <;> simp [simpleItem] at hsi <;> simp
+
+/-! ### from the pipeline's bindings to the enumeration's: counts -/
+
+section DedupPerm
+variable {α : Type} [BEq α] [LawfulBEq α]
+
+theorem nodup_dedupFirst (l : List α) : (dedupFirst l).Nodup := by
+  induction l with
+  | nil => simp [dedupFirst]
+  | cons v vs ih =>
+    simp only [dedupFirst, List.nodup_cons, List.mem_filter, bne_self_eq_false, Bool.false_eq_true, and_false,
+      not_false_eq_true, true_and]
+    exact ih.sublist List.filter_sublist
+
+/-- removing duplicates commutes with permuting, up to a permutation -/
+theorem dedupFirst_perm (l1 l2 : List α) (h : l1.Perm l2) : (dedupFirst l1).Perm (dedupFirst l2) := by
+  rw [List.perm_ext_iff_of_nodup (nodup_dedupFirst l1) (nodup_dedupFirst l2)]
+  intro a
+  rw [mem_dedupFirst, mem_dedupFirst]
+  exact h.mem_iff
+
+end DedupPerm
+
+theorem colAgg_count_perm (d : Bool) (l1 l2 : List Val) (h : l1.Perm l2) :
+    colAgg .countNonNull d l1 = colAgg .countNonNull d l2 := by
+  have hf : (nonNull l1).Perm (nonNull l2) := h.filter _
+  cases d
+  · rw [count_coded, count_coded, hf.length_eq]
+  · rw [count_distinct_coded, count_distinct_coded]
+    have := (dedupFirst_perm _ _ hf).length_eq
+    simp only [dedupVals]
+    rw [this]
+
+/-- keys and `count(x)` / `count(DISTINCT x)` only -/
+def countItem : Item → Bool
+  | .key _ _ => true
+  | .agg .count _ _ => true
+  | _ => false
+
+theorem countItem_simple (items : List Item) (h : items.all countItem = true) : items.all simpleItem = true := by
+  rw [List.all_eq_true] at h ⊢
+  intro it hit
+  have := h it hit
+  cases it with
+  | key v k => rfl
+  | agg fn d s => cases fn <;> simp [countItem] at this <;> rfl
+
+theorem aggRows_perm_counts (q : AggQ) (b1 b2 : List Binding) (h : b1.Perm b2) (hc : q.items.all countItem = true) :
+    (aggRows q b1).Perm (aggRows q b2) := by
+  rw [aggRows_cells, aggRows_cells]
+  have hkept : (b1.filter (passes q.preds)).Perm (b2.filter (passes q.preds)) := h.filter _
+  have hkeys : (resultKeys q b1).Perm (resultKeys q b2) := by
+    unfold resultKeys
+    split
+    · exact List.Perm.refl _
+    · exact dedupFirst_perm _ _ (hkept.map _)
+  have hF : ∀ k, (aggItems q.items).map (codedCell (groupOf q b1 k)) = (aggItems q.items).map (codedCell (groupOf q b2 k)) := by
+    intro k
+    apply List.map_congr_left
+    intro it hit
+    have hmem : it ∈ q.items := by
+      simp only [aggItems, List.mem_filter] at hit
+      exact hit.1
+    have hci := List.all_eq_true.1 hc it hmem
+    have hg : (groupOf q b1 k).Perm (groupOf q b2 k) := hkept.filter _
+    cases it with
+    | key v kk => rfl
+    | agg fn d s =>
+      cases fn <;> simp [countItem] at hci
+      exact colAgg_count_perm d _ _ (hg.map _)
+  have : (resultKeys q b1).map (fun k => k.map ofVal ++ (aggItems q.items).map (codedCell (groupOf q b1 k))) =
+      (resultKeys q b1).map (fun k => k.map ofVal ++ (aggItems q.items).map (codedCell (groupOf q b2 k))) := by
+    apply List.map_congr_left
+    intro k _
+    rw [hF k]
+  rw [this]
+  exact hkeys.map _
+
+/-- F, from query to answer: for every graph with unique node ids and every chain pattern, a
+`RETURN keys…, count(…)…` query (keys first, no ORDER BY / SKIP / LIMIT) executed by the scan /
+expand / aggregate pipeline returns exactly the rows — each the same number of times — that
+grouping and counting the enumeration of all bindings yields. -/
+theorem execAgg_perm_evalAgg_counts (g : Graph) (hu : UniqueIds g) (q : AggQ)
+    (hc : q.items.all countItem = true) (hkf : KeysFirst q)
+    (ho : q.orderBy = []) (hs : q.skip = none) (hl : q.limit = none) :
+    ∃ r s, Pipe.execAgg g q = .rows r ∧ Spec.evalAgg g q = .rows s ∧ r.Perm s := by
+  have hperm := c08_pipeline_bindings_perm_enumeration g hu q.core
+  have hspec : Spec.evalAgg g q = finishAgg q (Spec.bindings g q.core) :=
+    (finishAgg_eq_finishSpec_counts q _ (countItem_simple _ hc) hkf (by simp [ho])).symm
+  have hcs : hasCountStar q = false := by
+    unfold hasCountStar
+    rw [List.any_eq_false]
+    intro it hit
+    have hci := List.all_eq_true.1 hc it hit
+    cases it with
+    | key v kk => simp
+    | agg fn d s => cases fn <;> simp [countItem] at hci <;> simp
+  refine ⟨aggRows q (Pipe.bindings g q.core), aggRows q (Spec.bindings g q.core), ?_, ?_, aggRows_perm_counts q _ _ hperm hc⟩
+  · simp [Pipe.execAgg, finishAgg, hcs, ho, hs, hl, window]
+  · rw [hspec]
+    simp [finishAgg, hcs, ho, hs, hl, window]
+
+/-- N: two groups over a three-node graph, `RETURN a.k0, count(a.k1), collect(a.k1)` — hypotheses
+hold, both sides return the same two rows; and a sum query through GQL text = through the enumeration. -/
+theorem agg_query_nonvacuous :
+    let g : Graph := ⟨[⟨0, [], [(0, .int 1), (1, .int 5)]⟩, ⟨1, [], [(0, .int 1)]⟩, ⟨2, [], [(0, .str "x"), (1, .int 2)]⟩], []⟩
+    let q : AggQ := { start := ⟨none⟩, hops := [], preds := [], items := [.key 0 0, .agg .count false (.prop 0 1), .agg .collect false (.prop 0 1)],
+                      orderBy := [(1, false)], skip := none, limit := none }
+    let q2 : AggQ := { q with items := [.key 0 0, .agg .sum false (.prop 0 1)], orderBy := [] }
+    q.items.all simpleItem = true ∧ KeysFirst q ∧
+    Pipe.execAgg g q = .rows [[.int 1, .int 1, .list [.int 5]], [.str "x", .int 1, .list [.int 2]]] ∧
+    Spec.evalAgg g q = Pipe.execAgg g q ∧
+    Pipe.execAgg g q2 = .rows [[.int 1, .int 5], [.str "x", .int 2]] ∧ Spec.evalAgg g q2 = Pipe.execAgg g q2 := by
+  refine ⟨by decide, by decide, by decide, by decide, by decide, by decide⟩
+
+/-! ## 5. the Gremlin and GraphQL plans against the enumeration -/
+
+theorem map_singleton_nonNull (l : List Val) :
+    (l.map (fun v => [ofVal v])).filter (· != [AVal.null]) = (nonNull l).map (fun v => [ofVal v]) := by
+  induction l with
+  | nil => rfl
+  | cons v vs ih =>
+    cases v <;> simp [nonNull, ofVal] at ih ⊢ <;> exact ih
+
+/-- F: a Gremlin traversal `g.V()…out()/in()/both()…has(…)….values(k)` without dedup / order /
+range / reducing step returns, apart from the nulls it emits for vertices that lack the property,
+exactly the values of the enumeration, the same number of times. -/
+theorem gremlin_values_perm (g : Graph) (hu : UniqueIds g) (q : GremQ) (k : Nat)
+    (hp : q.proj = some k) (hd : q.dedup = .none) (ho : q.order = none) (hs : q.skip = none) (hl : q.limit = none)
+    (ha : q.agg = none) :
+    ∃ r s, Pipe.execGremlin g q = .rows r ∧ Spec.evalGremlin g q = .rows s ∧ (r.filter (· != [AVal.null])).Perm s := by
+  have hperm := c08_pipeline_bindings_perm_enumeration g hu q.core
+  refine ⟨(((Pipe.bindings g q.core).filter (passes q.preds)).map (fun b => lastProp b k)).map (fun v => [ofVal v]),
+    (nonNull (((Spec.bindings g q.core).filter (passes q.preds)).map (fun b => lastProp b k))).map (fun v => [ofVal v]), ?_, ?_, ?_⟩
+  · simp [Pipe.execGremlin, gremSteps, hp, hd, ho, hs, hl, ha, window]
+  · simp [Spec.evalGremlin, gremSteps, hp, hd, ho, hs, hl, ha, window]
+  · rw [map_singleton_nonNull]
+    have hp2 : (((Pipe.bindings g q.core).filter (passes q.preds)).map (fun b => lastProp b k)).Perm
+        (((Spec.bindings g q.core).filter (passes q.preds)).map (fun b => lastProp b k)) := (hperm.filter _).map _
+    exact (hp2.filter _).map _
+
+/-- F: `count()` straight after the pattern counts the bindings of the enumeration. -/
+theorem gremlin_count_eq (g : Graph) (hu : UniqueIds g) (q : GremQ)
+    (hp : q.proj = none) (hd : q.dedup = .none) (ho : q.order = none) (hs : q.skip = none) (hl : q.limit = none)
+    (ha : q.agg = some .count) :
+    Pipe.execGremlin g q = Spec.evalGremlin g q := by
+  have hperm := c08_pipeline_bindings_perm_enumeration g hu q.core
+  have hlen : ((Pipe.bindings g q.core).filter (passes q.preds)).length =
+      ((Spec.bindings g q.core).filter (passes q.preds)).length := (hperm.filter (passes q.preds)).length_eq
+  unfold Pipe.execGremlin Spec.evalGremlin
+  simp only [hp, hd, ho, hs, hl, ha, gremSteps, window, gAggFn]
+  rw [simpleAgg_single, count_star_coded]
+  simp [hlen]
+
+theorem dedupByLast_ids (bs : List Binding) : (dedupByLast bs).map lastId = dedupVals (bs.map lastId) := by
+  induction bs with
+  | nil => rfl
+  | cons b rest ih =>
+    simp only [dedupByLast, List.map_cons, dedupVals, dedupFirst]
+    congr 1
+    rw [show dedupFirst (List.map lastId rest) = List.map lastId (dedupByLast rest) from ih.symm, List.filter_map]
+    rfl
+
+/-- F (after the repair of `dedup()`): `g.V()…out()….dedup()` returns every vertex the pattern
+reaches exactly once — the distinct current vertices of the enumeration. -/
+theorem gremlin_dedup_perm (g : Graph) (hu : UniqueIds g) (q : GremQ)
+    (hp : q.proj = none) (hd : q.dedup = .nodes) (ho : q.order = none) (hs : q.skip = none) (hl : q.limit = none)
+    (ha : q.agg = none) :
+    ∃ r s, Pipe.execGremlin g q = .rows r ∧ Spec.evalGremlin g q = .rows s ∧ r.Perm s ∧ s.Nodup := by
+  have hperm := c08_pipeline_bindings_perm_enumeration g hu q.core
+  have hids : (((Pipe.bindings g q.core).filter (passes q.preds)).map lastId).Perm
+      (((Spec.bindings g q.core).filter (passes q.preds)).map lastId) := (hperm.filter _).map _
+  refine ⟨(dedupVals (((Pipe.bindings g q.core).filter (passes q.preds)).map lastId)).map (fun v => [ofVal v]),
+    (dedupVals (((Spec.bindings g q.core).filter (passes q.preds)).map lastId)).map (fun v => [ofVal v]), ?_, ?_, ?_, ?_⟩
+  · simp [Pipe.execGremlin, gremSteps, hp, hd, ho, hs, hl, ha, window, dedupByLast_ids]
+  · simp [Spec.evalGremlin, gremSteps, hp, hd, ho, hs, hl, ha, window, dedupByLast_ids]
+  · exact (dedupFirst_perm _ _ hids).map _
+  · have hinj : ∀ a b : Val, a ≠ b → [ofVal a] ≠ [ofVal b] := by
+      intro a b hab h
+      apply hab
+      cases a <;> cases b <;> simp_all [ofVal]
+    exact List.Pairwise.map _ hinj (nodup_dedupFirst _)
+
+/-- F: a GraphQL query without `orderBy` / `first` / `skip` returns the rows of the enumeration,
+the same number of times. -/
+theorem graphql_exec_perm_spec (g : Graph) (hu : UniqueIds g) (q : GqlQ)
+    (ho : q.order = none) (hs : q.skip = none) (hf : q.first = none) :
+    ∃ r s, Pipe.execGraphql g q = .rows r ∧ Spec.evalGraphql g q = .rows s ∧ r.Perm s := by
+  have hperm := c08_pipeline_bindings_perm_enumeration g hu q.core
+  refine ⟨((Pipe.bindings g q.core).filter (passes q.preds)).map (projA q.cols),
+    ((Spec.bindings g q.core).filter (passes q.preds)).map (projA q.cols), ?_, ?_, (hperm.filter _).map _⟩
+  · simp [Pipe.execGraphql, ho, hs, hf, window]
+  · simp [Spec.evalGraphql, ho, hs, hf]
+
+/-- W: as coded, every `orderBy` on a field with a selection set fails, whatever the data. -/
+theorem graphql_orderby_fails (g : Graph) (q : GqlQ) (k : Nat) (asc : Bool) (ho : q.order = some (k, asc)) :
+    Pipe.execGraphql g q = .error "internal" := by
+  simp [Pipe.execGraphql, ho]
+
+theorem expandStep_perm_extend (g : Graph) (hu : UniqueIds g) (h : Hop) (a : Node) :
+    (Pipe.expandStep g h [a]).Perm (Spec.extend g [h] [a]) := by
+  have h1 := pipe_perm_spec_rows g hu [h] [[a]] [[a]] (List.Perm.refl _)
+  have h2 := flatMap_extend_eq_specRows g [h] [[a]]
+  rw [← h2] at h1
+  simpa using h1
+
+/-- F (after the repair of the chain planner): two sibling selections `{ l { k9 t1 { k9 } t2 { k9 } } }`
+return, for every root vertex, every pair of a `t1`-neighbour and a `t2`-neighbour, the same number
+of times as the enumeration. -/
+theorem graphql_siblings_perm (g : Graph) (hu : UniqueIds g) (label t1 t2 : Nat) :
+    ∃ r s, Pipe.execStar g label t1 t2 = .rows r ∧ Spec.evalStar g label t1 t2 = .rows s ∧ r.Perm s := by
+  refine ⟨_, _, rfl, rfl, ?_⟩
+  apply flatMap_perm_pointwise
+  intro a _
+  have p1 := expandStep_perm_extend g hu ⟨some t1, .out, ⟨none⟩⟩ a
+  have p2 := expandStep_perm_extend g hu ⟨some t2, .out, ⟨none⟩⟩ a
+  refine (flatMap_perm_pointwise _ _ _ (fun ab _ => p2.map _)).trans ?_
+  exact List.Perm.flatMap_right _ p1
+
+/-- N: the graphs on which the old planner ran the siblings as a chain: 0 -T0-> 1 -T1-> 2 has no
+match, 0 -T0-> 1, 0 -T1-> 2 has one. -/
+theorem graphql_siblings_nonvacuous :
+    let ns : List Node := [⟨0, [0], [(9, .int 0)]⟩, ⟨1, [0], [(9, .int 10)]⟩, ⟨2, [0], [(9, .int 20)]⟩]
+    Pipe.execStar ⟨ns, [⟨0, 0, 1, 0⟩, ⟨1, 1, 2, 1⟩]⟩ 0 0 1 = .rows [] ∧
+    Spec.evalStar ⟨ns, [⟨0, 0, 1, 0⟩, ⟨1, 1, 2, 1⟩]⟩ 0 0 1 = .rows [] ∧
+    Pipe.execStar ⟨ns, [⟨0, 0, 1, 0⟩, ⟨1, 0, 2, 1⟩]⟩ 0 0 1 = .rows [[.int 0, .int 10, .int 20]] ∧
+    Spec.evalStar ⟨ns, [⟨0, 0, 1, 0⟩, ⟨1, 0, 2, 1⟩]⟩ 0 0 1 = .rows [[.int 0, .int 10, .int 20]] := by
+  refine ⟨by decide, by decide, by decide, by decide⟩
+
+/-- N: `g.V().out().dedup()` over two parallel edges returns the target once, on both sides. -/
+theorem gremlin_dedup_nonvacuous :
+    let g : Graph := ⟨[⟨0, [], []⟩, ⟨1, [], []⟩], [⟨0, 0, 1, 0⟩, ⟨1, 0, 1, 0⟩]⟩
+    let q : GremQ := { start := ⟨none⟩, hops := [⟨none, .out, ⟨none⟩⟩], preds := [], order := none, skip := none,
+                       limit := none, proj := none, dedup := .nodes, agg := none }
+    Pipe.execGremlin g q = .rows [[.int 1]] ∧ Spec.evalGremlin g q = .rows [[.int 1]] := by
+  refine ⟨by decide, by decide⟩
+
+/-- W: `values(k)` keeps a null for a vertex without the property, and `count()` counts it. -/
+theorem gremlin_values_missing_witness :
+    let g : Graph := ⟨[⟨0, [], [(0, .int 1)]⟩, ⟨1, [], []⟩], []⟩
+    let q : GremQ := { start := ⟨none⟩, hops := [], preds := [], order := none, skip := none,
+                       limit := none, proj := some 0, dedup := .none, agg := some .count }
+    Pipe.execGremlin g q = .rows [[.int 2]] ∧ Spec.evalGremlin g q = .rows [[.int 1]] := by
+  refine ⟨by decide, by decide⟩
+
+/-- W: the operator lays the row out keys first whatever RETURN says; `count(*)` is rejected. -/
+theorem layout_and_count_star_witness :
+    let g : Graph := ⟨[⟨0, [], [(0, .int 1), (1, .int 7)]⟩, ⟨1, [], [(1, .int 7)]⟩], []⟩
+    let q : AggQ := { start := ⟨none⟩, hops := [], preds := [], items := [.agg .count false (.prop 0 0), .key 0 1],
+                      orderBy := [], skip := none, limit := none }
+    let q2 : AggQ := { q with items := [.agg .countStar false (.node 0)] }
+    Pipe.execAgg g q = .rows [[.int 7, .int 1]] ∧ Spec.evalAgg g q = .rows [[.int 1, .int 7]] ∧
+    Pipe.execAgg g q2 = .error "syntax" ∧ Spec.evalAgg g q2 = .rows [[.int 2]] := by
+  refine ⟨by decide, by decide, by decide, by decide⟩
+
+/-- W: `min` over a string and a number: "10" is parsed and compared with 9 numerically; the
+specification's value order puts strings before numbers. -/
+theorem min_mixed_query_witness :
+    let g : Graph := ⟨[⟨0, [], [(0, .str "10")]⟩, ⟨1, [], [(0, .int 9)]⟩], []⟩
+    let q : AggQ := { start := ⟨none⟩, hops := [], preds := [], items := [.agg .min false (.prop 0 0)],
+                      orderBy := [], skip := none, limit := none }
+    Pipe.execAgg g q = .rows [[.int 9]] ∧ Spec.evalAgg g q = .rows [[.str "10"]] := by
+  refine ⟨by decide +kernel, by decide⟩
+
+/-! ## 6. regression: the defects repaired in the code, on the old definitions
+
+The functions below are what the model contained before the repairs (`ValueVector::set_null`
+validity mask, Int64-typed SUM / MIN / MAX columns, `*sum += v` with overflow checks, Cypher
+`count(x)` as COUNT(*), DISTINCT on the factorized aggregate, sibling hops as a chain, whole-row
+`dedup()`); the theorems record how each differed from what the model does now. -/
+
+namespace Old
+
+/-- typed vectors recorded only their first null -/
+def loseNullsCol (dflt : AVal) : Bool → List AVal → List AVal
+  | _, [] => []
+  | seen, v :: vs =>
+    if v == .null then (if seen then dflt else .null) :: loseNullsCol dflt true vs
+    else v :: loseNullsCol dflt seen vs
+
+theorem loseNullsCol_witness :
+    loseNullsCol (.int 0) false [.null, .int 3, .null, .null] = [.null, .int 3, .int 0, .int 0] := by decide
+
+/-- SUM / MIN / MAX results were pushed into an Int64 vector -/
+def coerceInt64 (v : AVal) : AVal :=
+  match v with
+  | .int _ => v
+  | .null => v
+  | _ => .int 0
+
+theorem coerceInt64_witness :
+    coerceInt64 (colAgg .min false [.str "b", .str "a"]) = .int 0 ∧ colAgg .min false [.str "b", .str "a"] = .str "a" := by
+  refine ⟨by decide, by decide⟩
+
+/-- Cypher's `count(x)` reached the operator as COUNT(*) -/
+theorem cypher_count_witness :
+    colAgg .count false [.int 1, .null] = .int 2 ∧ colAgg .countNonNull false [.int 1, .null] = .int 1 := by
+  refine ⟨by decide, by decide⟩
+
+/-- sibling hops were executed as the chain a -t1-> b -t2-> c -/
+def execStarChain (g : Graph) (label t1 t2 : Nat) : Res :=
+  let q : Q := { start := ⟨some label⟩, hops := [⟨some t1, .out, ⟨none⟩⟩, ⟨some t2, .out, ⟨none⟩⟩], preds := [],
+                 ret := .props [(0, 9), (1, 9), (2, 9)], distinct := false, orderBy := [], skip := none, limit := none }
+  .rows ((Pipe.bindings g q).map (projA [(0, 9), (1, 9), (2, 9)]))
+
+theorem execStarChain_witness :
+    let ns : List Node := [⟨0, [0], [(9, .int 0)]⟩, ⟨1, [0], [(9, .int 10)]⟩, ⟨2, [0], [(9, .int 20)]⟩]
+    execStarChain ⟨ns, [⟨0, 0, 1, 0⟩, ⟨1, 1, 2, 1⟩]⟩ 0 0 1 = .rows [[.int 0, .int 10, .int 20]] ∧
+    Pipe.execStar ⟨ns, [⟨0, 0, 1, 0⟩, ⟨1, 1, 2, 1⟩]⟩ 0 0 1 = .rows [] := by
+  refine ⟨by decide, by decide⟩
+
+end Old
 
 end Grafeo.QueryAgg
